@@ -1219,31 +1219,101 @@ func auditedThroughCallers(c *Ctx, fn *ssa.Function, in ssa.Instruction, audited
 	return keys, why
 }
 
-// lenSumBound: v is built from len(...) of existing objects, non-negative constants, additions and divisions by a
-// constant >= 1 only; then v <= (sum of the lengths of objects already in memory) + the constant returned.
+// lenSumBound: v is built from len(...) of existing objects, non-negative constants, additions, subtractions of a
+// constant that provably leave it non-negative, divisions by a constant >= 1, phis of such values and calls of
+// functions of the module that return such a value of their arguments only; then
+// 0 <= v <= (sum of the lengths of objects already in memory) + the constant returned.
 func lenSumBound(v ssa.Value, depth int) (int64, bool) {
-	if depth > 8 {
-		return 0, false
+	up, _, ok := lenSumBounds(v, depth, nil, map[ssa.Value]bool{})
+	return up, ok
+}
+
+type lenBnd struct{ up, lo int64 }
+
+// lenSumBounds returns the constant part of the upper bound and a constant lower bound of v; env gives the bounds of
+// the parameters when a callee's result is evaluated for one call.
+func lenSumBounds(v ssa.Value, depth int, env map[*ssa.Parameter]lenBnd, onPath map[ssa.Value]bool) (up, lo int64, ok bool) {
+	if depth > 12 || onPath[v] {
+		return 0, 0, false
 	}
-	if k, ok := constInt(v); ok {
-		return k, k >= 0
+	onPath[v] = true
+	defer delete(onPath, v)
+	if k, isC := constInt(v); isC {
+		return k, k, k >= 0
 	}
 	switch x := v.(type) {
-	case *ssa.Call:
-		if b, ok := x.Call.Value.(*ssa.Builtin); ok && b.Name() == "len" {
-			return 0, true
+	case *ssa.Parameter:
+		if b, has := env[x]; has {
+			return b.up, b.lo, true
 		}
+	case *ssa.Phi:
+		first := true
+		for _, e := range x.Edges {
+			u, l, ok1 := lenSumBounds(e, depth+1, env, onPath)
+			if !ok1 {
+				return 0, 0, false
+			}
+			if first || u > up {
+				up = u
+			}
+			if first || l < lo {
+				lo = l
+			}
+			first = false
+		}
+		return up, lo, !first
+	case *ssa.Call:
+		if b, isB := x.Call.Value.(*ssa.Builtin); isB && b.Name() == "len" {
+			return 0, 0, true
+		}
+		g := x.Call.StaticCallee()
+		if g == nil || g.Pkg == nil || !strings.HasPrefix(g.Pkg.Pkg.Path(), modPath) || len(g.Blocks) == 0 || g.Signature.Results().Len() != 1 || len(g.Params) != len(x.Call.Args) {
+			return 0, 0, false
+		}
+		sub := map[*ssa.Parameter]lenBnd{}
+		for i, pa := range g.Params {
+			u, l, ok1 := lenSumBounds(x.Call.Args[i], depth+1, env, onPath)
+			if ok1 {
+				sub[pa] = lenBnd{u, l}
+			}
+		}
+		first := true
+		for _, rt := range returnsOf(g) {
+			if len(rt.Results) != 1 {
+				return 0, 0, false
+			}
+			u, l, ok1 := lenSumBounds(rt.Results[0], depth+1, sub, onPath)
+			if !ok1 {
+				return 0, 0, false
+			}
+			if first || u > up {
+				up = u
+			}
+			if first || l < lo {
+				lo = l
+			}
+			first = false
+		}
+		return up, lo, !first
 	case *ssa.BinOp:
 		switch x.Op {
 		case token.ADD:
-			a, ok1 := lenSumBound(x.X, depth+1)
-			b, ok2 := lenSumBound(x.Y, depth+1)
-			return a + b, ok1 && ok2
+			u1, l1, ok1 := lenSumBounds(x.X, depth+1, env, onPath)
+			u2, l2, ok2 := lenSumBounds(x.Y, depth+1, env, onPath)
+			return u1 + u2, l1 + l2, ok1 && ok2
+		case token.SUB:
+			if d, isC := constInt(x.Y); isC && d >= 0 {
+				u, l, ok1 := lenSumBounds(x.X, depth+1, env, onPath)
+				if ok1 && l-d >= 0 {
+					return u, l - d, true
+				}
+			}
 		case token.QUO:
-			if d, ok := constInt(x.Y); ok && d >= 1 {
-				return lenSumBound(x.X, depth+1)
+			if d, isC := constInt(x.Y); isC && d >= 1 {
+				u, l, ok1 := lenSumBounds(x.X, depth+1, env, onPath)
+				return u, l / d, ok1
 			}
 		}
 	}
-	return 0, false
+	return 0, 0, false
 }
